@@ -21,7 +21,7 @@ pub struct Flags {
     pub u3: bool,
     /// numerically equal int/float twins met as elements of in/nin/... arguments (zone U5)
     pub u5: bool,
-    /// comparison with a number outside the exact range (zone U2)
+    /// an integer beyond the exact range compared with a float, or a non-finite float (zone U2)
     pub u2: bool,
     /// functions applied: (name, arg kinds, result kind) for coverage evidence
     pub fn_calls: Vec<(String, String, String)>,
@@ -327,10 +327,19 @@ impl<'a> Ctx<'a> {
             Basic::Cmp { lhs, op, rhs } => {
                 let a = self.operand(lhs, cur)?;
                 let b = self.operand(rhs, cur)?;
-                for o in [&a, &b] {
-                    if let Some(J::Num(n)) = o.get() {
-                        if !n.in_exact_range() {
-                            self.flags.u2 = true;
+                // zone U2: a number outside the exact range meets a float (or is one). Two
+                // integers are compared exactly whatever their magnitude, so they are judged.
+                let both_int = matches!((a.get(), b.get()), (Some(J::Num(N::Int(_))), Some(J::Num(N::Int(_)))));
+                let both_num = matches!((a.get(), b.get()), (Some(J::Num(_)), Some(J::Num(_))));
+                let both_float = matches!((a.get(), b.get()), (Some(J::Num(N::Float(_))), Some(J::Num(N::Float(_)))));
+                if both_num && !both_int {
+                    for o in [&a, &b] {
+                        if let Some(J::Num(n)) = o.get() {
+                            // two floats are compared exactly as floats; an integer beyond 2^53
+                            // against a float is where conversions lose precision
+                            if (!both_float && !n.in_exact_range()) || !n.as_f64().is_finite() {
+                                self.flags.u2 = true;
+                            }
                         }
                     }
                 }
